@@ -9,6 +9,7 @@ What stays outside a theorem: that RSA-OAEP hides its input and that crypto/rand
 the peer's private key, byte search for the secrets in everything written and in error texts).
 -/
 import Dblib.Model.LoginRecord
+import Dblib.Props.C09.Sources
 
 namespace Dblib.Props.C09
 open Dblib.LoginRecord Dblib.Gen.LoginLayout
